@@ -148,4 +148,522 @@ theorem sdiv_eq (a b : Nat) (ha : a < W) (hb : b < W) : Model.Arith.sdiv a b = S
     obtain ⟨h1, h2, _⟩ := core_case a b (by omega) (by omega) hmin
     rw [h1, h2]
 
+/-! ### near-definitional opcodes -/
+theorem addmod_eq (a b n : Nat) : Model.Arith.addmod a b n = Spec.Arith.addmod a b n := rfl
+theorem mulmod_eq (a b n : Nat) : Model.Arith.mulmod a b n = Spec.Arith.mulmod a b n := rfl
+theorem lt_eq (a b : Nat) : Model.Arith.lt a b = Spec.Arith.lt a b := rfl
+theorem gt_eq (a b : Nat) : Model.Arith.gt a b = Spec.Arith.gt a b := rfl
+theorem eq_eq (a b : Nat) : Model.Arith.eq a b = Spec.Arith.eq a b := rfl
+theorem iszero_eq (a : Nat) : Model.Arith.iszero a = Spec.Arith.iszero a := rfl
+theorem and_eq (a b : Nat) : Model.Arith.bitand a b = Spec.Arith.and a b := rfl
+theorem or_eq (a b : Nat) : Model.Arith.bitor a b = Spec.Arith.or a b := rfl
+theorem xor_eq (a b : Nat) : Model.Arith.bitxor a b = Spec.Arith.xor a b := rfl
+theorem not_eq (a : Nat) : Model.Arith.bitnot a = Spec.Arith.not a := rfl
+
+/-- the square-and-multiply loop computes `r * base^e` when the fuel covers the bits of `e` -/
+theorem powLoop_eq (fuel : Nat) : ∀ (base e r : Nat), e < 2^fuel → r < W →
+    powLoop fuel base e r = (r * base^e) % W := by
+  induction fuel with
+  | zero =>
+    intro base e r he hr
+    have : e = 0 := by simpa using he
+    subst this; simp [powLoop, Nat.mod_eq_of_lt hr]
+  | succ n ih =>
+    intro base e r he hr
+    unfold powLoop
+    by_cases h0 : e = 0
+    · subst h0; simp [Nat.mod_eq_of_lt hr]
+    simp only [h0, if_false]
+    have hWpos : 0 < W := by rw [W_val]; omega
+    have he2 : e / 2 < 2^n := by
+      have : 2^(n+1) = 2 * 2^n := by rw [Nat.pow_succ]; omega
+      omega
+    have hsq : ∀ k, (wmul base base)^k % W = (base^(2*k)) % W := by
+      intro k; unfold wmul; rw [← Nat.pow_mod, Nat.pow_mul, Nat.pow_two]
+    by_cases h1 : e % 2 = 1
+    · simp only [h1, if_true]
+      rw [ih _ _ _ he2 (show wmul r base < W from Nat.mod_lt _ hWpos)]
+      have hE : base ^ e = base * base^(2*(e/2)) := by
+        have : e = 2*(e/2) + 1 := by omega
+        conv => lhs; rw [this]
+        rw [Nat.pow_succ, Nat.mul_comm]
+      rw [Nat.mul_mod, hsq]
+      unfold wmul
+      rw [Nat.mod_mod, ← Nat.mul_mod, hE, Nat.mul_assoc]
+    · simp only [h1, if_false]
+      rw [ih _ _ _ he2 hr]
+      have hE : base ^ e = base^(2*(e/2)) := by
+        have : e = 2*(e/2) := by omega
+        conv => lhs; rw [this]
+      rw [Nat.mul_mod, hsq, ← Nat.mul_mod, hE]
+
+theorem exp_eq (a b : Nat) (hb : b < W) : Model.Arith.exp a b = Spec.Arith.exp a b := by
+  have hW := W_val
+  unfold Model.Arith.exp Spec.Arith.exp
+  rw [powLoop_eq 256 a b _ hb (Nat.mod_lt _ (by omega))]
+  have : 1 % W = 1 := Nat.mod_eq_of_lt (by omega)
+  rw [this, Nat.one_mul]
+
+/-! ### SMOD, SLT, SGT -/
+/-- remainder of magnitudes: below 2^255, so `u256_remove_sign` is the identity on it -/
+theorem mod_core (x y : Nat) (hy0 : 0 < y) (hy : y ≤ 2^255) :
+    removeSign (x % y) = x % y ∧ ofInt (((x % y : Nat) : Int)) = x % y ∧
+    ofInt (-(((x % y : Nat) : Int))) = wneg (x % y) := by
+  have hW := W_val
+  have hlt : x % y < 2^255 := Nat.lt_of_lt_of_le (Nat.mod_lt _ hy0) hy
+  unfold removeSign
+  generalize x % y = q at hlt ⊢
+  refine ⟨Nat.mod_eq_of_lt hlt, ofInt_natCast _ (by omega), ?_⟩
+  by_cases h0 : q = 0
+  · rw [h0]; simp [ofInt, wneg]
+  · rw [ofInt_neg_natCast _ (by omega) (by omega), wneg_of_pos _ (by omega) (by omega)]
+
+theorem smod_eq (a b : Nat) (ha : a < W) (hb : b < W) : Model.Arith.smod a b = Spec.Arith.smod a b := by
+  have hW := W_val
+  unfold Model.Arith.smod i256Mod Spec.Arith.smod
+  by_cases ha0 : a = 0
+  · subst ha0
+    by_cases hb0 : b = 0 <;> simp [signCompl_zero, hb0, toInt, ofInt]
+  by_cases hb0 : b = 0
+  · subst hb0
+    by_cases han : a ≥ 2^255
+    · rw [signCompl_neg a ha han]; simp [signCompl_zero]
+    · rw [signCompl_pos a ha (by omega) ha0]; simp [signCompl_zero]
+  by_cases hbn : b ≥ 2^255 <;> by_cases han : a ≥ 2^255
+  · rw [signCompl_neg b hb hbn, signCompl_neg a ha han, toInt_neg a han ha, toInt_neg b hbn hb]
+    simp only [hb0, if_false, reduceCtorEq, if_true]
+    rw [Int.tmod_neg, Int.neg_tmod, ← Int.ofNat_tmod]
+    obtain ⟨h1, _, h3⟩ := mod_core (W - a) (W - b) (by omega) (by omega)
+    rw [h1, h3]
+  · rw [signCompl_neg b hb hbn, signCompl_pos a ha (by omega) ha0, toInt_nonneg a (by omega), toInt_neg b hbn hb]
+    simp only [hb0, if_false, reduceCtorEq, if_true]
+    rw [Int.tmod_neg, ← Int.ofNat_tmod]
+    obtain ⟨h1, h2, _⟩ := mod_core a (W - b) (by omega) (by omega)
+    rw [h1, h2]
+  · rw [signCompl_pos b hb (by omega) hb0, signCompl_neg a ha han, toInt_neg a han ha, toInt_nonneg b (by omega)]
+    simp only [hb0, if_false, reduceCtorEq, if_true]
+    rw [Int.neg_tmod, ← Int.ofNat_tmod]
+    obtain ⟨h1, _, h3⟩ := mod_core (W - a) b (by omega) (by omega)
+    rw [h1, h3]
+  · rw [signCompl_pos b hb (by omega) hb0, signCompl_pos a ha (by omega) ha0, toInt_nonneg a (by omega), toInt_nonneg b (by omega)]
+    simp only [hb0, if_false, reduceCtorEq, if_true]
+    rw [← Int.ofNat_tmod]
+    obtain ⟨h1, h2, _⟩ := mod_core a b (by omega) (by omega)
+    rw [h1, h2]
+
+theorem sign_neg (v : Nat) (hv : v < W) (h : v ≥ 2^255) : i256Sign v = .minus := by
+  unfold i256Sign; rw [bit255 v hv]; simp [h]
+theorem sign_zero : i256Sign 0 = .zero := by unfold i256Sign bit; simp
+theorem sign_pos (v : Nat) (hv : v < W) (h : v < 2^255) (h0 : v ≠ 0) : i256Sign v = .plus := by
+  have hn : ¬ (v ≥ 2^255) := by omega
+  unfold i256Sign; rw [bit255 v hv]; simp [h0, hn]
+
+theorem signInt (a : Nat) (ha : a < W) :
+    (i256Sign a).toInt = if a ≥ 2^255 then -1 else if a = 0 then 0 else 1 := by
+  unfold i256Sign; rw [bit255 a ha]
+  by_cases h : a ≥ 2^255
+  · simp [h, Sign.toInt]
+  · by_cases h0 : a = 0 <;> simp [h, h0, Sign.toInt]
+
+/-- `i256_cmp` is the three-way comparison of the two's-complement readings -/
+theorem i256Cmp_eq (a b : Nat) (ha : a < W) (hb : b < W) :
+    i256Cmp a b = if toInt a < toInt b then -1 else if toInt a > toInt b then 1 else 0 := by
+  have hW := W_val
+  unfold i256Cmp
+  simp only [signInt a ha, signInt b hb]
+  unfold toInt
+  repeat' split
+  all_goals (first | rfl | omega)
+
+theorem slt_eq (a b : Nat) (ha : a < W) (hb : b < W) : Model.Arith.slt a b = Spec.Arith.slt a b := by
+  unfold Model.Arith.slt Spec.Arith.slt
+  rw [i256Cmp_eq a b ha hb]
+  by_cases h1 : toInt a < toInt b
+  · simp [h1, Model.Arith.b2w, Spec.Arith.b2w]
+  · by_cases h2 : toInt a > toInt b <;> simp [h1, h2, Model.Arith.b2w, Spec.Arith.b2w]
+
+theorem sgt_eq (a b : Nat) (ha : a < W) (hb : b < W) : Model.Arith.sgt a b = Spec.Arith.sgt a b := by
+  unfold Model.Arith.sgt Spec.Arith.sgt
+  rw [i256Cmp_eq a b ha hb]
+  by_cases h1 : toInt a < toInt b
+  · have : ¬ (toInt a > toInt b) := by omega
+    simp [h1, this, Model.Arith.b2w, Spec.Arith.b2w]
+  · by_cases h2 : toInt a > toInt b <;> simp [h1, h2, Model.Arith.b2w, Spec.Arith.b2w]
+
+/-! ### BYTE, SHL, SHR -/
+theorem asU64Sat_small (s : Nat) (h : s < 256) : asU64Sat s = s := by
+  have := U64_val; unfold asU64Sat; simp; omega
+theorem asU64Sat_big (s : Nat) (h : ¬ s < 256) : ¬ asU64Sat s < 256 := by
+  have := U64_val; unfold asU64Sat; split <;> omega
+
+theorem byte_eq (i x : Nat) : Model.Arith.byte i x = Spec.Arith.byte i x := by
+  unfold Model.Arith.byte Spec.Arith.byte
+  by_cases h : i < 32
+  · rw [asU64Sat_small i (by omega)]; simp [h, Nat.shiftRight_eq_div_pow]
+  · have : ¬ asU64Sat i < 32 := by
+      have := U64_val; unfold asU64Sat; split <;> omega
+    simp [h, this]
+
+theorem pow_ge_W (s : Nat) (h : ¬ s < 256) : ∃ k, 2^s = W * k := by
+  refine ⟨2^(s-256), ?_⟩
+  have e : s = 256 + (s - 256) := by omega
+  have : 2^s = 2^256 * 2^(s-256) := by rw [← Nat.pow_add, ← e]
+  exact this
+
+theorem shl_eq (s x : Nat) : Model.Arith.shl s x = Spec.Arith.shl s x := by
+  unfold Model.Arith.shl Spec.Arith.shl
+  by_cases h : s < 256
+  · rw [asU64Sat_small s h]; simp [h, Nat.shiftLeft_eq]
+  · obtain ⟨k, hk⟩ := pow_ge_W s h
+    simp only [asU64Sat_big s h, if_false]
+    rw [hk, ← Nat.mul_assoc, Nat.mul_comm x W, Nat.mul_assoc, Nat.mul_mod_right]
+
+theorem shr_eq (s x : Nat) (hx : x < W) : Model.Arith.shr s x = Spec.Arith.shr s x := by
+  unfold Model.Arith.shr Spec.Arith.shr
+  by_cases h : s < 256
+  · rw [asU64Sat_small s h]; simp [h, Nat.shiftRight_eq_div_pow]
+  · obtain ⟨k, hk⟩ := pow_ge_W s h
+    simp only [asU64Sat_big s h, if_false]
+    have hk0 : 0 < k := by
+      rcases Nat.eq_zero_or_pos k with h0 | h0
+      · rw [h0, Nat.mul_zero] at hk; have := Nat.two_pow_pos s; omega
+      · exact h0
+    have : x < 2^s := by
+      rw [hk]; exact Nat.lt_of_lt_of_le hx (Nat.le_mul_of_pos_right W hk0)
+    exact (Nat.div_eq_of_lt this).symm
+
+/-! ### SAR -/
+theorem W_le_pow (s : Nat) (h : ¬ s < 256) : W ≤ 2^s := by
+  obtain ⟨k, hk⟩ := pow_ge_W s h
+  have hk0 : 0 < k := by
+    rcases Nat.eq_zero_or_pos k with h0 | h0
+    · rw [h0, Nat.mul_zero] at hk; have := Nat.two_pow_pos s; omega
+    · exact h0
+  rw [hk]; exact Nat.le_mul_of_pos_right W hk0
+
+theorem W_split (s : Nat) (h : s < 256) : W = 2^(256-s) * 2^s := by
+  have : 2^256 = 2^(256-s) * 2^s := by rw [← Nat.pow_add]; congr 1; omega
+  exact this
+
+/-- floor division of a negative reading, shift below 256 -/
+theorem sar_neg_small (s x : Nat) (hs : s < 256) (hx : x < W) :
+    (x >>> s) ||| (W - 2^(256 - s)) % W = ofInt (((x : Int) - (W : Int)) / ((2^s : Nat) : Int)) := by
+  have hW := W_val
+  have hsplit := W_split s hs
+  have hm1 : 0 < 2^(256-s) := Nat.two_pow_pos _
+  have hd : 0 < 2^s := Nat.two_pow_pos _
+  have hq : x / 2^s < 2^(256-s) := by
+    rw [Nat.div_lt_iff_lt_mul hd]; rw [← hsplit]; exact hx
+  have hmW : 2^(256-s) ≤ W := by
+    rw [hsplit]; exact Nat.le_mul_of_pos_right _ hd
+  -- the Int side
+  have hI : ((x : Int) - (W : Int)) / ((2^s : Nat) : Int)
+      = -(((2^(256-s) - x / 2^s : Nat)) : Int) := by
+    have e : ((x : Int) - (W : Int)) = (x : Int) + (-((2^(256-s) : Nat) : Int)) * ((2^s : Nat) : Int) := by
+      rw [hsplit]; push_cast; rw [Int.neg_mul]; omega
+    rw [e, Int.add_mul_ediv_right _ _ (by exact_mod_cast (Nat.ne_of_gt hd))]
+    rw [← Int.natCast_ediv] -- (x:Int) / (2^s:Nat) = ((x / 2^s : Nat) : Int)
+    rw [Int.ofNat_sub (Nat.le_of_lt hq)]; omega
+  rw [hI, Nat.shiftRight_eq_div_pow]
+  generalize x / 2^s = q at hq ⊢
+  rw [ofInt_neg_natCast _ (by omega) (by omega)]
+  by_cases hs0 : s = 0
+  · subst hs0
+    have : 2^(256-0) = W := rfl
+    rw [this] at hq ⊢
+    simp; omega
+  · have hmlt : 2^(256-s) < W := by
+      rw [hsplit]
+      have : 2 ≤ 2^s := by
+        have := Nat.pow_le_pow_right (n := 2) (by omega) (show 1 ≤ s by omega)
+        simpa using this
+      have := (Nat.mul_lt_mul_left (a := 2^(256-s)) (b := 1) (c := 2^s) hm1).2 (by omega)
+      rw [Nat.mul_one] at this; exact this
+    rw [Nat.mod_eq_of_lt (by omega)]
+    have hfac : W - 2^(256-s) = 2^(256-s) * (2^s - 1) := by
+      rw [Nat.mul_sub, Nat.mul_one, ← hsplit]
+    rw [hfac, Nat.or_comm, ← Nat.two_pow_add_eq_or_of_lt hq, ← hfac]
+    omega
+
+
+/-- floor division of a negative reading by at least 2^256 is -1 -/
+theorem sar_neg_big (s x : Nat) (hs : ¬ s < 256) (hx : x < W) (hn : x ≥ 2^255) :
+    W - 1 = ofInt (((x : Int) - (W : Int)) / ((2^s : Nat) : Int)) := by
+  have hW := W_val
+  have hle := W_le_pow s hs
+  have hI : ((x : Int) - (W : Int)) / ((2^s : Nat) : Int) = -1 := by
+    generalize 2^s = d at hle
+    have e : ((x : Int) - (W : Int)) = ((d - (W - x) : Nat) : Int) + (-1) * (d : Int) := by
+      rw [Int.ofNat_sub (by omega), Int.ofNat_sub (by omega)]; omega
+    rw [e, Int.add_mul_ediv_right _ _ (by omega), ← Int.natCast_ediv, Nat.div_eq_of_lt (by omega)]
+    simp
+  rw [hI]
+  have := ofInt_neg_natCast 1 (by omega) (by omega)
+  simpa using this.symm
+
+theorem sar_eq (s x : Nat) (hx : x < W) : Model.Arith.sar s x = Spec.Arith.sar s x := by
+  have hW := W_val
+  unfold Model.Arith.sar Spec.Arith.sar arithShr
+  rw [bit255 x hx]
+  by_cases hn : x ≥ 2^255
+  · rw [toInt_neg x hn hx, Int.ofNat_sub (Nat.le_of_lt hx), Int.neg_sub]
+    by_cases hs : s < 256
+    · rw [asU64Sat_small s hs]; simp only [hs, hn, if_true, decide_true]
+      exact sar_neg_small s x hs hx
+    · simp only [asU64Sat_big s hs, hn, if_false, if_true, decide_true]
+      exact sar_neg_big s x hs hx hn
+  · rw [toInt_nonneg x (by omega), ← Int.natCast_ediv]
+    have hd : 0 < 2^s := Nat.two_pow_pos _
+    have hlt : x / 2^s < W := Nat.lt_of_le_of_lt (Nat.div_le_self _ _) hx
+    rw [ofInt_natCast _ hlt]
+    by_cases hs : s < 256
+    · rw [asU64Sat_small s hs]; simp [hs, hn, Nat.shiftRight_eq_div_pow]
+    · simp only [asU64Sat_big s hs, hn, if_false, decide_false]
+      have := W_le_pow s hs
+      exact (Nat.div_eq_of_lt (by omega)).symm
+
+/-! ### SIGNEXTEND -/
+theorem W_split' (s : Nat) (h : s ≤ 256) : W = 2^s * 2^(256-s) := by
+  have : 2^256 = 2^s * 2^(256-s) := by rw [← Nat.pow_add]; congr 1; omega
+  exact this
+
+/-- OR-ing the ones from bit `k` up to bit 255 onto a word -/
+theorem or_high_ones (x k : Nat) (hx : x < W) (hk : k ≤ 256) :
+    x ||| (W - 2^k) = (W - 2^k) + x % 2^k := by
+  have hfac : W - 2^k = 2^k * (2^(256-k) - 1) := by
+    rw [Nat.mul_sub, Nat.mul_one, ← W_split' k hk]
+  have hr : x % 2^k < 2^k := Nat.mod_lt _ (Nat.two_pow_pos _)
+  rw [hfac]
+  apply Nat.eq_of_testBit_eq
+  intro j
+  rw [Nat.testBit_two_pow_mul_add _ hr, Nat.testBit_or, Nat.testBit_two_pow_mul,
+    Nat.testBit_two_pow_sub_one, Nat.testBit_mod_two_pow]
+  by_cases hj : j < k
+  · have : ¬ j ≥ k := by omega
+    simp [hj, this]
+  · by_cases hj2 : j < 256
+    · have h1 : j ≥ k := by omega
+      have h2 : j - k < 256 - k := by omega
+      simp [hj, h1, h2]
+    · have hxj : x.testBit j = false := by
+        apply Nat.testBit_lt_two_pow
+        have : W ≤ 2^j := Nat.pow_le_pow_right (by omega) (by omega)
+        omega
+      have h2 : ¬ j - k < 256 - k := by omega
+      simp [hj, hxj, h2]
+
+theorem signextend_eq (k x : Nat) (hx : x < W) :
+    Model.Arith.signextend k x = Spec.Arith.signextend k x := by
+  have hW := W_val
+  unfold Model.Arith.signextend Spec.Arith.signextend
+  by_cases hk : k < 31
+  · simp only [hk, if_true]
+    have hn : 8 * (k + 1) = (8 * k + 7) + 1 := by omega
+    rw [hn, Nat.add_sub_cancel]
+    generalize hbi : 8 * k + 7 = bi
+    have hbi' : bi ≤ 247 := by omega
+    have hp : 2^bi < W := by
+      have : 2^bi < 2^256 := Nat.pow_lt_pow_right (by omega) (by omega)
+      exact this
+    have hp0 : 0 < 2^bi := Nat.two_pow_pos _
+    have hmask : wsub ((1 <<< bi) % W) 1 = 2^bi - 1 := by
+      rw [Nat.shiftLeft_eq, Nat.one_mul, Nat.mod_eq_of_lt hp]
+      unfold wsub
+      rw [Nat.mod_eq_of_lt (by omega : 1 < W)]
+      have : 2^bi + W - 1 = (2^bi - 1) + W := by omega
+      rw [this, Nat.add_mod_right]; exact Nat.mod_eq_of_lt (by omega)
+    rw [hmask]
+    have hlo : x % 2^(bi+1) = x % 2^bi + 2^bi * (x / 2^bi % 2) := Nat.mod_pow_succ
+    have hr : x % 2^bi < 2^bi := Nat.mod_lt _ hp0
+    unfold bit
+    rw [Nat.testBit_eq_decide_div_mod_eq]
+    by_cases hb : x / 2^bi % 2 = 1
+    · rw [hb, Nat.mul_one] at hlo
+      have hge : x % 2^(bi+1) ≥ 2^bi := by omega
+      simp only [hb, decide_true, if_true, hge]
+      have hnot : U256.not (2^bi - 1) = W - 2^bi := by unfold U256.not; omega
+      rw [hnot, or_high_ones x bi hx (by omega), hlo, Nat.pow_succ]
+      generalize x % 2^bi = r at hr ⊢
+      generalize 2^bi = p at *
+      have : ((r + p : Nat) : Int) - ((p * 2 : Nat) : Int) = -((p - r : Nat) : Int) := by omega
+      rw [this, ofInt_neg_natCast _ (by omega) (by omega)]
+      omega
+    · have hb0 : x / 2^bi % 2 = 0 := by omega
+      rw [hb0, Nat.mul_zero, Nat.add_zero] at hlo
+      have hge : ¬ x % 2^(bi+1) ≥ 2^bi := by omega
+      simp only [hb, decide_false, if_false, hge, Bool.false_eq_true]
+      rw [Nat.and_two_pow_sub_one_eq_mod, hlo, Nat.add_zero]
+  · simp only [hk, if_false]
+
+/-! ### EXP gas -/
+/-- position of the top bit splits at any limb boundary below it -/
+theorem log2_split (v k : Nat) (h : v / 2^k ≠ 0) : v.log2 = k + (v / 2^k).log2 := by
+  have hv : v ≠ 0 := by
+    intro h0; subst h0; simp at h
+  have hd : 0 < 2^k := Nat.two_pow_pos _
+  rw [Nat.log2_eq_iff hv]
+  have h1 := Nat.log2_self_le h
+  have h2 := Nat.lt_log2_self (n := v / 2^k)
+  generalize (v / 2^k).log2 = e at h1 h2
+  constructor
+  · rw [Nat.pow_add]
+    have := (Nat.le_div_iff_mul_le hd).1 h1
+    rw [Nat.mul_comm]; exact this
+  · have := (Nat.div_lt_iff_lt_mul hd).1 h2
+    have e2 : 2^(k + e + 1) = 2^(e+1) * 2^k := by rw [← Nat.pow_add]; congr 1; omega
+    rw [e2]; exact this
+
+theorem log2floorFrom_eq (n : Nat) : ∀ v, v < 2^(64 * n) →
+    log2floorFrom v n (64 * n) = if v = 0 then 0 else v.log2 := by
+  induction n with
+  | zero => intro v hv; have : v = 0 := by simpa using hv
+            subst this; simp [log2floorFrom]
+  | succ n ih =>
+    intro v hv
+    unfold log2floorFrom
+    have hd : 0 < 2^(64*n) := Nat.two_pow_pos _
+    have hq : v / 2^(64*n) < 2^64 := by
+      rw [Nat.div_lt_iff_lt_mul hd, ← Nat.pow_add]
+      have : 64 + 64 * n = 64 * (n+1) := by omega
+      rw [this]; exact hv
+    have hl : limb v n = v / 2^(64*n) := by unfold limb; exact Nat.mod_eq_of_lt hq
+    rw [hl]
+    by_cases h0 : v / 2^(64*n) = 0
+    · have hv' : v < 2^(64*n) := by
+        rcases Nat.lt_or_ge v (2^(64*n)) with h | h
+        · exact h
+        · have := (Nat.le_div_iff_mul_le hd).2 (by rw [Nat.one_mul]; exact h); omega
+      simp only [h0, if_true]
+      have : 64 * (n+1) - 64 = 64 * n := by omega
+      rw [this]; exact ih v hv'
+    · have hv0 : v ≠ 0 := by intro h; subst h; simp at h0
+      simp only [h0, hv0, if_false]
+      have hsp := log2_split v (64*n) h0
+      have hlog : (v / 2^(64*n)).log2 < 64 := (Nat.log2_lt h0).2 hq
+      unfold lz64
+      simp only [h0, if_false]
+      generalize (v / 2^(64*n)).log2 = e at *
+      have : 64 * (n+1) - (63 - e) = 64 * n + e + 1 := by omega
+      rw [this]
+      have : ¬ (64 * n + e + 1 = 0) := by omega
+      simp only [this, if_false]; omega
+
+theorem log2floor_eq (v : Nat) (hv : v < W) : log2floor v = if v = 0 then 0 else v.log2 :=
+  log2floorFrom_eq 4 v hv
+
+theorem expCost_eq (sd : Bool) (p : Nat) (hp : p < W) :
+    Model.Arith.expCost sd p = some (Spec.Arith.expCost sd p) := by
+  have hW := W_val
+  have hU := U64_val
+  unfold Model.Arith.expCost Spec.Arith.expCost Spec.Arith.byteLen
+  by_cases h0 : p = 0
+  · simp [h0]
+  · simp only [h0, if_false]
+    rw [log2floor_eq p hp]; simp only [h0, if_false]
+    have hlog : p.log2 < 256 := (Nat.log2_lt h0).2 hp
+    generalize p.log2 = e at hlog
+    unfold checkedMul checkedAdd
+    cases sd
+    · have h1 : 10 * (e / 8 + 1) < W := by omega
+      have h2 : 10 + 10 * (e / 8 + 1) < W := by omega
+      have h3 : 10 + 10 * (e / 8 + 1) < U64 := by omega
+      simp [h1, h2, h3]
+    · have h1 : 50 * (e / 8 + 1) < W := by omega
+      have h2 : 10 + 50 * (e / 8 + 1) < W := by omega
+      have h3 : 10 + 50 * (e / 8 + 1) < U64 := by omega
+      simp [h1, h2, h3]
+
+/-! ### results stay in range; NOT characterised -/
+theorem W_pos : 0 < W := by rw [W_val]; omega
+theorem ofInt_lt (i : Int) : ofInt i < W := by
+  unfold ofInt
+  have hpos : (0 : Int) < (W : Int) := by exact_mod_cast W_pos
+  have h1 := Int.emod_nonneg i (Int.ne_of_gt hpos)
+  have h2 := Int.emod_lt_of_pos i hpos
+  omega
+theorem b2w_lt (b : Bool) : Model.Arith.b2w b < W := by
+  have hW := W_val; unfold Model.Arith.b2w; split <;> omega
+
+theorem add_lt (a b : Nat) : Model.Arith.add a b < W := Nat.mod_lt _ W_pos
+theorem mul_lt (a b : Nat) : Model.Arith.mul a b < W := Nat.mod_lt _ W_pos
+theorem sub_lt (a b : Nat) : Model.Arith.sub a b < W := Nat.mod_lt _ W_pos
+theorem div_lt_W (a b : Nat) (ha : a < W) : Model.Arith.div a b < W := by
+  rw [div_eq]; unfold Spec.Arith.div; split
+  · exact W_pos
+  · exact Nat.lt_of_le_of_lt (Nat.div_le_self _ _) ha
+theorem mod_lt_W (a b : Nat) (hb : b < W) : Model.Arith.rem a b < W := by
+  rw [mod_eq]; unfold Spec.Arith.mod; split
+  · exact W_pos
+  · exact Nat.lt_trans (Nat.mod_lt _ (by omega)) hb
+theorem sdiv_lt (a b : Nat) (ha : a < W) (hb : b < W) : Model.Arith.sdiv a b < W := by
+  rw [sdiv_eq a b ha hb]; unfold Spec.Arith.sdiv; split
+  · exact W_pos
+  · exact ofInt_lt _
+theorem smod_lt (a b : Nat) (ha : a < W) (hb : b < W) : Model.Arith.smod a b < W := by
+  rw [smod_eq a b ha hb]; unfold Spec.Arith.smod; split
+  · exact W_pos
+  · exact ofInt_lt _
+theorem addmod_lt (a b n : Nat) (hn : n < W) : Model.Arith.addmod a b n < W := by
+  unfold Model.Arith.addmod; split
+  · exact W_pos
+  · exact Nat.lt_trans (Nat.mod_lt _ (by omega)) hn
+theorem mulmod_lt (a b n : Nat) (hn : n < W) : Model.Arith.mulmod a b n < W := by
+  unfold Model.Arith.mulmod; split
+  · exact W_pos
+  · exact Nat.lt_trans (Nat.mod_lt _ (by omega)) hn
+theorem exp_lt (a b : Nat) (hb : b < W) : Model.Arith.exp a b < W := by
+  rw [exp_eq a b hb]; exact Nat.mod_lt _ W_pos
+theorem signextend_lt (k x : Nat) (hx : x < W) : Model.Arith.signextend k x < W := by
+  rw [signextend_eq k x hx]; unfold Spec.Arith.signextend
+  by_cases hk : k < 31
+  · simp only [hk, if_true]
+    split
+    · exact ofInt_lt _
+    · exact Nat.lt_of_le_of_lt (Nat.mod_le _ _) hx
+  · simp only [hk, if_false]; exact hx
+theorem lt_lt (a b : Nat) : Model.Arith.lt a b < W := b2w_lt _
+theorem gt_lt (a b : Nat) : Model.Arith.gt a b < W := b2w_lt _
+theorem slt_lt (a b : Nat) : Model.Arith.slt a b < W := b2w_lt _
+theorem sgt_lt (a b : Nat) : Model.Arith.sgt a b < W := b2w_lt _
+theorem eq_lt (a b : Nat) : Model.Arith.eq a b < W := b2w_lt _
+theorem iszero_lt (a : Nat) : Model.Arith.iszero a < W := b2w_lt _
+theorem and_lt (a b : Nat) (ha : a < W) : Model.Arith.bitand a b < W :=
+  Nat.lt_of_le_of_lt Nat.and_le_left ha
+theorem or_lt (a b : Nat) (ha : a < W) (hb : b < W) : Model.Arith.bitor a b < W :=
+  Nat.or_lt_two_pow (n := 256) ha hb
+theorem xor_lt (a b : Nat) (ha : a < W) (hb : b < W) : Model.Arith.bitxor a b < W :=
+  Nat.xor_lt_two_pow (n := 256) ha hb
+theorem not_lt (a : Nat) : Model.Arith.bitnot a < W := by
+  have := W_pos; unfold Model.Arith.bitnot U256.not; omega
+theorem byte_lt (i x : Nat) : Model.Arith.byte i x < W := by
+  have hW := W_val
+  unfold Model.Arith.byte; simp only []; split
+  · exact Nat.lt_trans (Nat.mod_lt _ (by omega)) (by omega)
+  · omega
+theorem shl_lt (s x : Nat) : Model.Arith.shl s x < W := by
+  rw [shl_eq]; exact Nat.mod_lt _ W_pos
+theorem shr_lt (s x : Nat) (hx : x < W) : Model.Arith.shr s x < W := by
+  rw [shr_eq s x hx]; exact Nat.lt_of_le_of_lt (Nat.div_le_self _ _) hx
+theorem sar_lt (s x : Nat) (hx : x < W) : Model.Arith.sar s x < W := by
+  rw [sar_eq s x hx]; exact ofInt_lt _
+
+/-- NOT flips exactly the 256 bits of the word -/
+theorem not_testBit (a : Nat) (ha : a < W) (i : Nat) :
+    (Spec.Arith.not a).testBit i = (decide (i < 256) && !a.testBit i) := by
+  unfold Spec.Arith.not
+  have : W - 1 - a = 2^256 - (a + 1) := by unfold W; omega
+  rw [this]; exact Nat.testBit_two_pow_sub_succ ha i
+
+/-- NOT is `-a - 1` in two's complement -/
+theorem not_int (a : Nat) (ha : a < W) : Spec.Arith.not a = ofInt (-(toInt a) - 1) := by
+  have hW := W_val
+  unfold Spec.Arith.not
+  by_cases h : a ≥ 2^255
+  · rw [toInt_neg a h ha]
+    have : -(-((W - a : Nat) : Int)) - 1 = ((W - 1 - a : Nat) : Int) := by omega
+    rw [this, ofInt_natCast _ (by omega)]
+  · rw [toInt_nonneg a (by omega)]
+    have : -(a : Int) - 1 = -((a + 1 : Nat) : Int) := by omega
+    rw [this, ofInt_neg_natCast _ (by omega) (by omega)]; omega
+
 end Revm.Proofs.Arith
